@@ -714,4 +714,508 @@ theorem zipEntries_unitPairs (cats : List Str) (pairs : List (Str × Int)) (h : 
       simp only [unitPairs] at this ⊢
       simp [zipEntries, this]
 
+/-! ### arithmetic on entry lists -/
+
+def cats (es : List Entry) : List Str := es.map (·.cat)
+
+theorem cats_cons (e : Entry) (es : List Entry) : cats (e :: es) = e.cat :: cats es := rfl
+
+theorem cats_mergeOne (f : Int → Int → Int) (a : List Entry) (x : Entry) (m : List Entry)
+    (h : mergeOne f a x = .ok m) : cats m = if x.cat ∈ cats a then cats a else cats a ++ [x.cat] := by
+  induction a generalizing m with
+  | nil => simp [mergeOne] at h; subst h; simp [cats]
+  | cons e rest ih =>
+    unfold mergeOne at h
+    by_cases hc : e.cat = x.cat
+    · simp only [hc, ↓reduceIte] at h
+      by_cases hu : e.unit = x.unit
+      · simp only [hu, ↓reduceIte] at h
+        cases h
+        simp [cats_cons, hc]
+      · simp [hu] at h
+    · simp only [hc, ↓reduceIte] at h
+      cases hr : mergeOne f rest x with
+      | error err => simp [hr] at h
+      | ok rest' =>
+        simp only [hr] at h
+        cases h
+        have := ih rest' hr
+        have hne : ¬ x.cat = e.cat := fun h' => hc h'.symm
+        rw [cats_cons, cats_cons, this]
+        by_cases hx : x.cat ∈ cats rest
+        · simp [hx]
+        · simp [hx, hne]
+
+theorem cats_mergeAll (f : Int → Int → Int) (a b m : List Entry) (h : mergeAll f a b = .ok m) :
+    cats m = cats a ++ dedupFrom (cats a) (cats b) := by
+  induction b generalizing a m with
+  | nil => simp [mergeAll] at h; subst h; simp [cats, dedupFrom]
+  | cons x xs ih =>
+    unfold mergeAll at h
+    cases h1 : mergeOne f a x with
+    | error err => simp [h1] at h
+    | ok a' =>
+      simp only [h1] at h
+      have h2 := cats_mergeOne f a x a' h1
+      have h3 := ih a' m h
+      rw [h3, h2, cats_cons]
+      by_cases hx : x.cat ∈ cats a
+      · simp [hx, dedupFrom]
+      · simp [hx, dedupFrom]
+
+/-- the recursion of `nfoldProduct` started from any quantity -/
+def nfoldFrom (reg : Reg) (q r : Quantity) : Nat → Except ErrKind Quantity
+  | 0 => .ok r
+  | k + 1 =>
+    match nfoldFrom reg q r k with
+    | .error err => .error err
+    | .ok x => opQ reg .mul q x
+
+theorem nfoldProduct_eq (reg : Reg) (q : Quantity) (k : Nat) : nfoldProduct reg q k = nfoldFrom reg q q k := by
+  induction k with
+  | zero => rfl
+  | succ k ih =>
+    simp only [nfoldProduct, nfoldFrom, ih]
+    cases nfoldFrom reg q q k <;> rfl
+
+theorem nfoldFrom_succ (reg : Reg) (q r : Quantity) (k : Nat) :
+    nfoldFrom reg q r (k + 1) = match opQ reg .mul q r with
+      | .error err => .error err
+      | .ok r' => nfoldFrom reg q r' k := by
+  induction k with
+  | zero =>
+    simp only [nfoldFrom]
+    cases opQ reg .mul q r <;> rfl
+  | succ k ih =>
+    rw [nfoldFrom, ih]
+    cases opQ reg .mul q r with
+    | error err => rfl
+    | ok r' => simp only [nfoldFrom]
+
+theorem qpowLoop_eq (reg : Reg) (q : Quantity) (k : Nat) (r : Quantity) :
+    qpowLoop reg q k r = nfoldFrom reg q r k := by
+  induction k generalizing r with
+  | zero => rfl
+  | succ k ih =>
+    rw [nfoldFrom_succ, qpowLoop]
+    cases opQ reg .mul q r with
+    | error err => rfl
+    | ok r' => exact ih r'
+
+
+/-! ### powers -/
+
+theorem scaleEntries_cons (n : Int) (e : Entry) (es : List Entry) :
+    scaleEntries n (e :: es) = { e with exp := e.exp * n } :: scaleEntries n es := rfl
+
+theorem scaleEntries_one (es : List Entry) : scaleEntries 1 es = es := by
+  induction es with
+  | nil => rfl
+  | cons e rest ih => rw [scaleEntries_cons, ih]; simp
+
+theorem cats_scaleEntries (n : Int) (es : List Entry) : cats (scaleEntries n es) = cats es := by
+  induction es with
+  | nil => rfl
+  | cons e rest ih => rw [scaleEntries_cons, cats_cons, cats_cons, ih]
+
+/-- matching looks at categories and units only: it commutes with scaling the exponents -/
+theorem matchOne_scale (reg : Reg) (n : Int) (es : List Entry) (used used' : List (Str × Str)) (es' : List Entry)
+    (h : matchOne reg used es = .ok (used', es')) :
+    matchOne reg used (scaleEntries n es) = .ok (used', scaleEntries n es') := by
+  induction es generalizing used used' es' with
+  | nil => simp [matchOne] at h; obtain ⟨h1, h2⟩ := h; subst h1 h2; rfl
+  | cons e rest ih =>
+    rw [scaleEntries_cons]
+    unfold matchOne at h ⊢
+    simp only
+    cases hq : reg.qtypeOf e.cat with
+    | error err => simp [hq] at h
+    | ok qt =>
+      simp only [hq] at h ⊢
+      cases hl : lookupUsed qt used with
+      | none =>
+        simp only [hl] at h ⊢
+        cases hr : matchOne reg ((qt, e.unit) :: used) rest with
+        | error err => simp [hr] at h
+        | ok r =>
+          obtain ⟨u1, r1⟩ := r
+          simp only [hr] at h
+          cases h
+          rw [ih _ _ _ hr]
+          rfl
+      | some w =>
+        simp only [hl] at h ⊢
+        cases hr : matchOne reg used rest with
+        | error err => simp [hr] at h
+        | ok r =>
+          obtain ⟨u1, r1⟩ := r
+          simp only [hr] at h
+          cases h
+          rw [ih _ _ _ hr]
+          rfl
+
+/-- a successful matching pass has looked up the quantity type of every category -/
+theorem typePairs_of_matchOne (reg : Reg) (n : Int) (es : List Entry) (used : List (Str × Str))
+    (r : List (Str × Str) × List Entry) (h : matchOne reg used es = .ok r) :
+    ∃ tps, typePairs reg (scaleEntries n es) = .ok tps := by
+  induction es generalizing used r with
+  | nil => exact ⟨[], rfl⟩
+  | cons e rest ih =>
+    rw [scaleEntries_cons]
+    unfold matchOne at h
+    unfold typePairs
+    simp only
+    cases hq : reg.qtypeOf e.cat with
+    | error err => simp [hq] at h
+    | ok qt =>
+      simp only [hq] at h ⊢
+      have hrest : ∃ u r', matchOne reg u rest = .ok r' := by
+        cases hl : lookupUsed qt used with
+        | none =>
+          simp only [hl] at h
+          cases hr : matchOne reg ((qt, e.unit) :: used) rest with
+          | error err => simp [hr] at h
+          | ok r' => exact ⟨_, r', hr⟩
+        | some w =>
+          simp only [hl] at h
+          cases hr : matchOne reg used rest with
+          | error err => simp [hr] at h
+          | ok r' => exact ⟨_, r', hr⟩
+      obtain ⟨u, r', hr⟩ := hrest
+      obtain ⟨tps, ht⟩ := ih u r' hr
+      exact ⟨_, by rw [ht]⟩
+
+theorem mergeOne_hit (f : Int → Int → Int) (pre : List Entry) (x : Entry) (rest : List Entry) (y : Entry)
+    (hpre : ∀ p ∈ pre, p.cat ≠ y.cat) (hc : x.cat = y.cat) (hu : x.unit = y.unit) :
+    mergeOne f (pre ++ x :: rest) y = .ok (pre ++ { x with exp := f x.exp y.exp } :: rest) := by
+  induction pre with
+  | nil => simp [mergeOne, hc, hu]
+  | cons p ps ih =>
+    have hp : p.cat ≠ y.cat := hpre p (by simp)
+    have := ih (fun p' hp' => hpre p' (by simp [hp']))
+    simp [mergeOne, hp, this]
+
+/-- multiplying a quantity by a power of itself: every category is found again, with the same unit -/
+theorem mergeAll_scaled (m : Int) (pre suf : List Entry) (h : (cats (pre ++ suf)).Nodup) :
+    mergeAll (expOp .mul) (pre ++ suf) (scaleEntries m suf) = .ok (pre ++ scaleEntries (m + 1) suf) := by
+  induction suf generalizing pre with
+  | nil => simp [mergeAll, scaleEntries]
+  | cons x rest ih =>
+    rw [scaleEntries_cons, mergeAll]
+    have hpre : ∀ p ∈ pre, p.cat ≠ x.cat := by
+      intro p hp hpc
+      have : (cats pre ++ x.cat :: cats rest).Nodup := by simpa [cats] using h
+      rw [List.nodup_append] at this
+      exact this.2.2 p.cat (by simp [cats]; exact ⟨p, hp, rfl⟩) x.cat (by simp) hpc
+    rw [mergeOne_hit (expOp .mul) pre x rest { x with exp := x.exp * m } hpre rfl rfl]
+    simp only
+    have h' : (cats ((pre ++ [{ x with exp := expOp .mul x.exp (x.exp * m) }]) ++ rest)).Nodup := by
+      simpa [cats] using h
+    have := ih (pre ++ [{ x with exp := expOp .mul x.exp (x.exp * m) }]) h'
+    simp only [List.append_assoc, List.singleton_append] at this
+    rw [this, scaleEntries_cons]
+    simp only [expOp]
+    have : x.exp + x.exp * m = x.exp * (m + 1) := by rw [Int.mul_add, Int.mul_one, Int.add_comm]
+    rw [this]
+
+theorem unitTotal_scale (u : Str) (n : Int) (es : List Entry) :
+    unitTotal u (scaleEntries n es) = unitTotal u es * n := by
+  induction es with
+  | nil => simp [unitTotal, scaleEntries]
+  | cons e rest ih =>
+    rw [scaleEntries_cons, unitTotal, unitTotal, ih, Int.add_mul]
+    by_cases hu : e.unit = u <;> simp [hu]
+
+theorem dropZero_scale (n : Int) (hn : n ≠ 0) (es : List Entry)
+    (hkeep : ∀ e ∈ es, e.exp ≠ 0 ∧ unitTotal e.unit es ≠ 0) :
+    dropZero (scaleEntries n es) = scaleEntries n es := by
+  unfold dropZero
+  rw [List.filter_eq_self]
+  intro e he
+  simp only [scaleEntries, List.mem_map] at he
+  obtain ⟨e0, he0, rfl⟩ := he
+  obtain ⟨h1, h2⟩ := hkeep e0 he0
+  have := unitTotal_scale e0.unit n es
+  simp [keepEntry, this, Int.mul_eq_zero, h1, h2, hn]
+
+theorem addExp_scale (n : Int) (acc : List (Str × Int)) (k : Str) (e : Int) :
+    addExp (acc.map (fun p => (p.1, p.2 * n))) k (e * n) = (addExp acc k e).map (fun p => (p.1, p.2 * n)) := by
+  induction acc with
+  | nil => simp [addExp]
+  | cons p rest ih =>
+    obtain ⟨v, f⟩ := p
+    by_cases hv : v = k
+    · simp [addExp, hv, Int.add_mul]
+    · simp [addExp, hv, ih]
+
+theorem joinExpsFrom_scale (n : Int) (acc ps : List (Str × Int)) :
+    joinExpsFrom (acc.map (fun p => (p.1, p.2 * n))) (ps.map (fun p => (p.1, p.2 * n)))
+      = (joinExpsFrom acc ps).map (fun p => (p.1, p.2 * n)) := by
+  induction ps generalizing acc with
+  | nil => rfl
+  | cons p rest ih =>
+    obtain ⟨k, e⟩ := p
+    simp only [List.map_cons, joinExpsFrom]
+    rw [addExp_scale, ih]
+
+/-- the joined composing units of the scaled entry list: every joined exponent multiplied by `n` -/
+theorem joinedUnits_scale (n : Int) (es : List Entry) :
+    joinedUnits (scaleEntries n es) = (joinedUnits es).map (fun p => (p.1, p.2 * n)) := by
+  unfold joinedUnits joinExps
+  have : unitPairs (scaleEntries n es) = (unitPairs es).map (fun p => (p.1, p.2 * n)) := by
+    simp [unitPairs, scaleEntries]
+  rw [this]
+  exact joinExpsFrom_scale n [] (unitPairs es)
+
+
+theorem mul_ne_one_of_two_le (a n : Int) (hn : 2 ≤ n) : a * n ≠ 1 := by
+  intro h
+  have h2 := congrArg Int.natAbs h
+  rw [Int.natAbs_mul] at h2
+  have h3 : n.natAbs = 1 := Nat.eq_one_of_mul_eq_one_left h2
+  omega
+
+theorem obtainFromDict_scaled (reg : Reg) (n : Int) (hn : 2 ≤ n) (es : List Entry) :
+    obtainFromDict reg (scaleEntries n es) = newDerived reg (scaleEntries n es) := by
+  cases es with
+  | nil => rfl
+  | cons e rest =>
+    cases rest with
+    | nil =>
+      simp only [scaleEntries, List.map_cons, List.map_nil, obtainFromDict]
+      rw [if_neg (mul_ne_one_of_two_le e.exp n hn)]
+    | cons e2 rest2 => rfl
+
+theorem newDerived_entries (reg : Reg) (es : List Entry) (r : Quantity) (h : newDerived reg es = .ok r) :
+    r.entries = es ∧ r.derived = true ∧ r.unit = renderUnit (joinedUnits es) := by
+  unfold newDerived at h
+  split at h
+  · cases h
+  · cases h; exact ⟨rfl, rfl, rfl⟩
+
+/-- `q * r` where `r` carries `q`'s entries with the exponents multiplied by `m`: the exponents multiplied by `m + 1` -/
+theorem opQ_self_scaled (reg : Reg) (q r : Quantity) (m : Int) (used used' : List (Str × Str)) (hm1 : 1 ≤ m)
+    (hm : matchOne reg [] q.entries = .ok (used, q.entries))
+    (hm' : matchOne reg used q.entries = .ok (used', q.entries))
+    (hnd : (q.entries.map (·.cat)).Nodup)
+    (hkeep : ∀ e ∈ q.entries, e.exp ≠ 0 ∧ unitTotal e.unit q.entries ≠ 0)
+    (hr : r.entries = scaleEntries m q.entries) :
+    opQ reg .mul q r = newDerived reg (scaleEntries (m + 1) q.entries) := by
+  unfold opQ opEntries matchEntries
+  rw [hm]
+  simp only
+  rw [hr, matchOne_scale reg m _ _ _ _ hm']
+  simp only
+  have h1 := mergeAll_scaled m [] q.entries (by simpa [cats] using hnd)
+  simp only [List.nil_append] at h1
+  rw [h1]
+  simp only
+  rw [dropZero_scale (m + 1) (by omega) _ hkeep]
+  exact obtainFromDict_scaled reg (m + 1) (by omega) _
+
+theorem newDerived_scaled_ok (reg : Reg) (q : Quantity) (used : List (Str × Str)) (n : Int)
+    (hm : matchOne reg [] q.entries = .ok (used, q.entries)) :
+    ∃ r', newDerived reg (scaleEntries n q.entries) = .ok r' := by
+  obtain ⟨tps, ht⟩ := typePairs_of_matchOne reg n q.entries [] _ hm
+  unfold newDerived
+  rw [ht]
+  exact ⟨_, rfl⟩
+
+theorem qpowLoop_scaled (reg : Reg) (q : Quantity) (used used' : List (Str × Str))
+    (hm : matchOne reg [] q.entries = .ok (used, q.entries))
+    (hm' : matchOne reg used q.entries = .ok (used', q.entries))
+    (hnd : (q.entries.map (·.cat)).Nodup)
+    (hkeep : ∀ e ∈ q.entries, e.exp ≠ 0 ∧ unitTotal e.unit q.entries ≠ 0)
+    (k : Nat) (r : Quantity) (m : Int) (hm1 : 1 ≤ m) (hr : r.entries = scaleEntries m q.entries) :
+    qpowLoop reg q (k + 1) r = newDerived reg (scaleEntries (m + k + 1) q.entries) := by
+  induction k generalizing r m with
+  | zero =>
+    have h1 := opQ_self_scaled reg q r m used used' hm1 hm hm' hnd hkeep hr
+    have h0 : m + ((0 : Nat) : Int) + 1 = m + 1 := by omega
+    rw [h0]
+    simp only [qpowLoop, h1]
+    cases newDerived reg (scaleEntries (m + 1) q.entries) <;> rfl
+  | succ k ih =>
+    have h1 := opQ_self_scaled reg q r m used used' hm1 hm hm' hnd hkeep hr
+    obtain ⟨r1, hr1⟩ := newDerived_scaled_ok reg q used (m + 1) hm
+    have he := (newDerived_entries reg _ r1 hr1).1
+    have := ih r1 (m + 1) (by omega) he
+    have hcast : m + 1 + (k : Int) + 1 = m + ((k + 1 : Nat) : Int) + 1 := by omega
+    rw [hcast] at this
+    rw [qpowLoop, h1, hr1]
+    exact this
+
+theorem obtainFromDict_entries (reg : Reg) (es : List Entry) (r : Quantity) (h : obtainFromDict reg es = .ok r) :
+    r.entries = es := by
+  have hd : ∀ r', newDerived reg es = .ok r' → r'.entries = es := fun r' h' => (newDerived_entries reg es r' h').1
+  unfold obtainFromDict at h
+  split at h
+  · rename_i e
+    by_cases he : e.exp = 1
+    · simp only [he, ↓reduceIte, newSimple] at h
+      split at h
+      · cases h
+      · cases h
+        cases e
+        simp_all
+    · simp only [he, ↓reduceIte] at h
+      exact hd r h
+  · exact hd r h
+
+/-! ### matching is idempotent -/
+
+/-- a matching pass only adds quantity types that were not in the dict: what was there stays -/
+theorem matchOne_mono (reg : Reg) (es : List Entry) (used used' : List (Str × Str)) (es' : List Entry)
+    (h : matchOne reg used es = .ok (used', es')) (qt w : Str) (hl : lookupUsed qt used = some w) :
+    lookupUsed qt used' = some w := by
+  induction es generalizing used used' es' with
+  | nil => simp [matchOne] at h; obtain ⟨h1, _⟩ := h; subst h1; exact hl
+  | cons e rest ih =>
+    unfold matchOne at h
+    cases hq : reg.qtypeOf e.cat with
+    | error err => simp [hq] at h
+    | ok qt0 =>
+      simp only [hq] at h
+      cases hl0 : lookupUsed qt0 used with
+      | none =>
+        simp only [hl0] at h
+        cases hr : matchOne reg ((qt0, e.unit) :: used) rest with
+        | error err => simp [hr] at h
+        | ok r =>
+          obtain ⟨u1, r1⟩ := r
+          simp only [hr] at h
+          cases h
+          apply ih _ _ _ hr
+          have hne : qt0 ≠ qt := by
+            intro heq; subst heq; rw [hl0] at hl; cases hl
+          simp [lookupUsed, hne, hl]
+      | some w0 =>
+        simp only [hl0] at h
+        cases hr : matchOne reg used rest with
+        | error err => simp [hr] at h
+        | ok r =>
+          obtain ⟨u1, r1⟩ := r
+          simp only [hr] at h
+          cases h
+          exact ih _ _ _ hr hl
+
+/-- after a matching pass every entry carries the unit the dict holds for its quantity type -/
+theorem matchOne_settled (reg : Reg) (es : List Entry) (used used' : List (Str × Str)) (es' : List Entry)
+    (h : matchOne reg used es = .ok (used', es')) :
+    ∀ e' ∈ es', ∃ qt, reg.qtypeOf e'.cat = .ok qt ∧ lookupUsed qt used' = some e'.unit := by
+  induction es generalizing used used' es' with
+  | nil => simp [matchOne] at h; obtain ⟨_, h2⟩ := h; subst h2; simp
+  | cons e rest ih =>
+    unfold matchOne at h
+    cases hq : reg.qtypeOf e.cat with
+    | error err => simp [hq] at h
+    | ok qt0 =>
+      simp only [hq] at h
+      cases hl0 : lookupUsed qt0 used with
+      | none =>
+        simp only [hl0] at h
+        cases hr : matchOne reg ((qt0, e.unit) :: used) rest with
+        | error err => simp [hr] at h
+        | ok r =>
+          obtain ⟨u1, r1⟩ := r
+          simp only [hr] at h
+          cases h
+          intro e' he'
+          rcases List.mem_cons.mp he' with rfl | hmem
+          · exact ⟨qt0, hq, matchOne_mono reg rest _ _ _ hr qt0 e'.unit (by simp [lookupUsed])⟩
+          · exact ih _ _ _ hr e' hmem
+      | some w0 =>
+        simp only [hl0] at h
+        cases hr : matchOne reg used rest with
+        | error err => simp [hr] at h
+        | ok r =>
+          obtain ⟨u1, r1⟩ := r
+          simp only [hr] at h
+          cases h
+          intro e' he'
+          rcases List.mem_cons.mp he' with rfl | hmem
+          · exact ⟨qt0, hq, matchOne_mono reg rest _ _ _ hr qt0 w0 hl0⟩
+          · exact ih _ _ _ hr e' hmem
+
+/-- entries that carry the dict's unit for their quantity type pass a matching pass unchanged -/
+theorem matchOne_fixed (reg : Reg) (U : List (Str × Str)) (es : List Entry)
+    (h : ∀ e ∈ es, ∃ qt, reg.qtypeOf e.cat = .ok qt ∧ lookupUsed qt U = some e.unit) :
+    matchOne reg U es = .ok (U, es) := by
+  induction es with
+  | nil => rfl
+  | cons e rest ih =>
+    obtain ⟨qt, hq, hl⟩ := h e (by simp)
+    have := ih (fun e' he' => h e' (by simp [he']))
+    unfold matchOne
+    simp only [hq, hl, this]
+
+/-- matching is idempotent: a second pass with the dict the first pass left changes nothing -/
+theorem matchOne_idem (reg : Reg) (es : List Entry) (used used' : List (Str × Str)) (es' : List Entry)
+    (h : matchOne reg used es = .ok (used', es')) : matchOne reg used' es' = .ok (used', es') :=
+  matchOne_fixed reg used' es' (matchOne_settled reg es used used' es' h)
+
+/-- multiplying a power of a quantity by the quantity itself (the order of `Scalar.__pow__`) -/
+theorem mergeAll_scaled_left (m : Int) (pre suf : List Entry) (h : (cats (pre ++ suf)).Nodup) :
+    mergeAll (expOp .mul) (pre ++ scaleEntries m suf) suf = .ok (pre ++ scaleEntries (m + 1) suf) := by
+  induction suf generalizing pre with
+  | nil => simp [mergeAll, scaleEntries]
+  | cons x rest ih =>
+    rw [scaleEntries_cons, mergeAll]
+    have hpre : ∀ p ∈ pre, p.cat ≠ x.cat := by
+      intro p hp hpc
+      have : (cats pre ++ x.cat :: cats rest).Nodup := by simpa [cats] using h
+      rw [List.nodup_append] at this
+      exact this.2.2 p.cat (by simp [cats]; exact ⟨p, hp, rfl⟩) x.cat (by simp) hpc
+    rw [mergeOne_hit (expOp .mul) pre { x with exp := x.exp * m } (scaleEntries m rest) x hpre rfl rfl]
+    simp only
+    have h' : (cats ((pre ++ [{ x with exp := expOp .mul (x.exp * m) x.exp }]) ++ rest)).Nodup := by
+      simpa [cats] using h
+    have := ih (pre ++ [{ x with exp := expOp .mul (x.exp * m) x.exp }]) h'
+    simp only [List.append_assoc, List.singleton_append] at this
+    rw [this, scaleEntries_cons]
+    simp only [expOp]
+    have : x.exp * m + x.exp = x.exp * (m + 1) := by rw [Int.mul_add, Int.mul_one]
+    rw [this]
+
+theorem opQ_scaled_self (reg : Reg) (q r : Quantity) (m : Int) (used : List (Str × Str)) (hm1 : 1 ≤ m)
+    (hm : matchOne reg [] q.entries = .ok (used, q.entries))
+    (hnd : (q.entries.map (·.cat)).Nodup)
+    (hkeep : ∀ e ∈ q.entries, e.exp ≠ 0 ∧ unitTotal e.unit q.entries ≠ 0)
+    (hr : r.entries = scaleEntries m q.entries) :
+    opQ reg .mul r q = newDerived reg (scaleEntries (m + 1) q.entries) := by
+  unfold opQ opEntries matchEntries
+  rw [hr, matchOne_scale reg m _ _ _ _ hm]
+  simp only
+  rw [matchOne_idem reg q.entries [] used q.entries hm]
+  simp only
+  have h1 := mergeAll_scaled_left m [] q.entries (by simpa [cats] using hnd)
+  simp only [List.nil_append] at h1
+  rw [h1]
+  simp only
+  rw [dropZero_scale (m + 1) (by omega) _ hkeep]
+  exact obtainFromDict_scaled reg (m + 1) (by omega) _
+
+theorem spowLoop_scaled (reg : Reg) (q : Quantity) (used : List (Str × Str))
+    (hm : matchOne reg [] q.entries = .ok (used, q.entries))
+    (hnd : (q.entries.map (·.cat)).Nodup)
+    (hkeep : ∀ e ∈ q.entries, e.exp ≠ 0 ∧ unitTotal e.unit q.entries ≠ 0)
+    (k : Nat) (r : Quantity) (m : Int) (hm1 : 1 ≤ m) (hr : r.entries = scaleEntries m q.entries) :
+    spowLoop reg q (k + 1) r = newDerived reg (scaleEntries (m + k + 1) q.entries) := by
+  induction k generalizing r m with
+  | zero =>
+    have h1 := opQ_scaled_self reg q r m used hm1 hm hnd hkeep hr
+    have h0 : m + ((0 : Nat) : Int) + 1 = m + 1 := by omega
+    rw [h0]
+    simp only [spowLoop, h1]
+    cases newDerived reg (scaleEntries (m + 1) q.entries) <;> rfl
+  | succ k ih =>
+    have h1 := opQ_scaled_self reg q r m used hm1 hm hnd hkeep hr
+    obtain ⟨r1, hr1⟩ := newDerived_scaled_ok reg q used (m + 1) hm
+    have he := (newDerived_entries reg _ r1 hr1).1
+    have := ih r1 (m + 1) (by omega) he
+    have hcast : m + 1 + (k : Int) + 1 = m + ((k + 1 : Nat) : Int) + 1 := by omega
+    rw [hcast] at this
+    rw [spowLoop, h1, hr1]
+    exact this
+
 end Barril.Str
